@@ -191,6 +191,57 @@ def r14_5(ck, F):
                       "Done can be sent before all elements were sent", x.loc(bb))
 
 
+def r14_6(ck, F):
+    ck.rule("R14.6", "cancel-safe accounting of the incremental initial value: in *Subscription::recv the remaining-"
+            "element counter `len` is decremented only where no Yield can follow before the element is returned",
+            "a pending recv() dropped by a timeout / select!: the counter shrinks without an element being delivered, "
+            "InitialComplete arrives early and the remaining initial elements are silently skipped", floor=4)
+    for adt, (file, inner, ev, mirror_inner, sub, mirrored) in OBSERVABLES.items():
+        if inner is None:
+            continue
+        b = F.main_body(f"{sub}::recv")
+        decs = []
+        for bb, i, s in b.assigns():
+            if s["rv"]["r"] == "use" and len(s["p"]) >= 2:
+                v = b.expr(s["rv"]["o"])
+                if v[0] == "bin" and v[1] == "Sub" and const_value(v[3]) == 1 and "len" in mir.field_leaves(v[2]) + [mir.last_field(v[2])]:
+                    decs.append(bb)
+        ys = set(b.yields())
+        bad = [d for d in decs if b.reach([d], include_start=False) & ys]
+        ck.expect(bool(decs) and not bad, f"{sub.split('::')[-1]}::recv#len-after-await",
+                  "len is decremented after the element was received (no Yield can follow)",
+                  f"`len -= 1` at {[b.loc(d) for d in bad] or 'n/a'} can be followed by an await: a cancelled recv() loses an "
+                  f"initial element" if decs else "decrement of len not found", b.loc(bad[0]) if bad else b.loc(0))
+
+
+def r14_7(ck, F):
+    ck.rule("R14.7", "a dropped list is reported: in ObservableList::task the subscribers that have caught up are shed "
+            "(subs.retain) under is_none() of the list's own request channel (Option<UnboundedReceiver<Req<T>>>), not "
+            "of the distributor channel",
+            "list dropped without done() while a distributor clone is alive: caught-up subscribers and mirrors hang "
+            "instead of receiving Closed", floor=2)
+    b = F.main_body("robs::list::ObservableList::task")
+    rets = [(bb, t) for bb, t in b.calls("std::vec::Vec::retain")]
+    if not rets:
+        raise mir.AnchorMissing("subs.retain in ObservableList::task")
+    for k, (bb, t) in enumerate(rets):
+        ok = False
+        for s, tb, v in controlling_edges(b, bb):
+            e = switch_expr(b, s)
+            if e[0] == "call" and e[1] == "std::option::Option::is_none" and switch_meaning(b, s, v) is True:
+                tt = b.term(e[3])
+                aty = b.local_ty(tt["a"][0][1][0]) if tt["a"][0][0] != "k" else ""
+                # type of the referenced option
+                src = tt["a"][0][1][0]
+                for d in b.defs.get(src, []):
+                    if d[0] == "assign" and d[3]["rv"]["r"] == "ref":
+                        aty = b.local_ty(d[3]["rv"]["p"][0])
+                if "robs::list::Req<" in aty and "DistReq" not in aty:
+                    ok = True
+        ck.expect(ok, f"list::task#shed-on-list-drop{k}", "guarded by the list request channel being closed",
+                  "subs.retain is not guarded by is_none() of the list's request channel", b.loc(bb))
+
+
 def run(ck, F):
-    for r in (r14_1, r14_2, r14_3, r14_4, r14_5):
+    for r in (r14_1, r14_2, r14_3, r14_4, r14_5, r14_6, r14_7):
         ck.run_rule(r)
